@@ -37,6 +37,7 @@ type Stats struct {
 	MaxPoints               int
 	Capped                  bool
 	Tick                    func() // called once per execution (liveness signal for the watchdog)
+	FirstSchedule           string // the first execution of this part, written out (for the evidence samples)
 }
 
 func NewStats() *Stats {
@@ -68,6 +69,13 @@ func RunOne(sc *Scenario, prefix []int, st *Stats) *vsched.Exec {
 	if x.Diverged != "" {
 		st.Internal = x.Diverged
 		return x
+	}
+	if st.FirstSchedule == "" {
+		sum := x.Summary()
+		if len(sum) > 1500 {
+			sum = sum[:1500] + "…"
+		}
+		st.FirstSchedule = sum + "log: " + strings.Join(x.Log, " | ")
 	}
 	outcome, viol := check(x)
 	st.Outcomes[outcome]++
